@@ -187,7 +187,10 @@ def check_case(data, segs, sep="."):
     proc = Processor(_LOG[0], data)
     findings = []
     outs = []
-    for call in ("get_nodes", "exists", "get_nodes(mustexist=False)"):
+    calls = ("get_nodes", "exists", "get_nodes(mustexist=False)")
+    if OPT_STRIDE[0] > 1 and (len(text) * 31 + sum(map(ord, text))) % OPT_STRIDE[0]:
+        calls = calls[:2]            # quick tier: the optional-match query on every OPT_STRIDE-th path text
+    for call in calls:
         if call == "get_nodes":
             r = call_real(lambda: len(list(proc.get_nodes(text, mustexist=True))))
         elif call == "exists":
@@ -217,6 +220,7 @@ def check_case(data, segs, sep="."):
 
 
 _LOG = [None]
+OPT_STRIDE = [1]
 
 
 def _paths_for(unit, doc_index, seed):
@@ -342,7 +346,7 @@ def _work(units, seed):
 RAW_ALPHA = "[]()'\"\\/.&*!=^$%<>~:, +-ab1"
 RAW_DOCS = ("a: {b: 1, a: [1, {a: b}]}\nb: [a, b1, null]\n1: ab\n", "- {a: 1, b: [a]}\n- [b, 1]\n- a\n", "ab\n")
 RAW_EXTRA = ("(a)x", "(a)x.y", "[(a)]", "a[(b)]", "[(a)b]", "[a='b(c)']", "[a=[b(c)]]", "a.(&a)", "/(&a)", "(a)'x'", "(a)b(c)",
-             "[a=~/(/]", "[has_child(a)](b)", "(a)[0]", "((a)b)", "[.='(']", "[.=')']", "(a)+(b)x", "&a(b)x", "[&a](b)c")
+             "[a=~/(/]", "[has_child(a)](b)", "a[has_child(,)]", "[has_child(,)]", "[!has_child(&)]", "(a)[0]", "((a)b)", "[.='(']", "[.=')']", "(a)+(b)x", "&a(b)x", "[&a](b)c")
 
 
 def _raw_strings(lo, hi, nalpha):
@@ -447,6 +451,9 @@ def run(tier="quick", seed=0, jobs=None):
     VOCAB = extended_vocabulary()
     COLLS = collector_paths()
     sets, spec, nrandom, bounds = plan(tier)
+    OPT_STRIDE[0] = 3 if tier == "quick" else 1
+    bounds["optional_mode"] = "get_nodes(mustexist=False) on a copy of the document for every %s path text" % (
+        "3rd" if OPT_STRIDE[0] == 3 else "")
     for name, kw in sets.items():
         DOCSETS[name] = gen.trees(**kw)
     units = []
